@@ -1,0 +1,155 @@
+//go:build verif
+
+package prunner
+
+import (
+	"time"
+
+	"github.com/gofrs/uuid"
+
+	"github.com/Flowpack/prunner/definition"
+)
+
+// This file only exists in builds with the "verif" tag. It gives the external verification
+// harness read-only access to the private state of the runner. Nothing in here takes the runner
+// lock: the harness calls these functions only while every goroutine of the runner is parked.
+
+// VerifTask is a copy of the reported state of one task of a job
+type VerifTask struct {
+	Name         string
+	Script       []string
+	DependsOn    []string
+	AllowFailure bool
+	Env          map[string]string
+	Status       string
+	HasStart     bool
+	HasEnd       bool
+	Skipped      bool
+	ExitCode     int16
+	Errored      bool
+	Error        string
+	Canceled     bool
+}
+
+// VerifJob is a copy of the state of one job
+type VerifJob struct {
+	ID         uuid.UUID
+	Pipeline   string
+	Env        map[string]string
+	Variables  map[string]interface{}
+	StartDelay time.Duration
+	Completed  bool
+	Canceled   bool
+	Created    time.Time
+	Start      *time.Time
+	End        *time.Time
+	User       string
+	LastError  string
+	HasSched   bool
+	HasRunner  bool
+	HasTimer   bool
+	Tasks      []VerifTask
+}
+
+// VerifState is a copy of the private state of the runner
+type VerifState struct {
+	Jobs           []VerifJob
+	JobsByPipeline map[string][]uuid.UUID
+	WaitLists      map[string][]uuid.UUID
+	IsShuttingDown bool
+	Defs           *definition.PipelinesDef
+}
+
+func verifJob(j *PipelineJob) VerifJob {
+	vj := VerifJob{
+		ID:         j.ID,
+		Pipeline:   j.Pipeline,
+		Env:        j.Env,
+		Variables:  j.Variables,
+		StartDelay: j.StartDelay,
+		Completed:  j.Completed,
+		Canceled:   j.Canceled,
+		Created:    j.Created,
+		Start:      j.Start,
+		End:        j.End,
+		User:       j.User,
+		HasSched:   j.sched != nil,
+		HasRunner:  j.taskRunner != nil,
+		HasTimer:   j.startTimer != nil,
+	}
+	if j.LastError != nil {
+		vj.LastError = j.LastError.Error()
+		if vj.LastError == "" {
+			vj.LastError = "(empty error)"
+		}
+	}
+	for _, t := range j.Tasks {
+		vt := VerifTask{
+			Name:         t.Name,
+			Script:       t.Script,
+			DependsOn:    t.DependsOn,
+			AllowFailure: t.AllowFailure,
+			Env:          t.Env,
+			Status:       t.Status,
+			HasStart:     t.Start != nil,
+			HasEnd:       t.End != nil,
+			Skipped:      t.Skipped,
+			ExitCode:     t.ExitCode,
+			Errored:      t.Errored,
+			Canceled:     t.Canceled,
+		}
+		if t.Error != nil {
+			vt.Error = t.Error.Error()
+		}
+		vj.Tasks = append(vj.Tasks, vt)
+	}
+	return vj
+}
+
+// VerifDump copies the private state of the runner without taking its lock
+func VerifDump(r *PipelineRunner) VerifState {
+	st := VerifState{
+		JobsByPipeline: make(map[string][]uuid.UUID),
+		WaitLists:      make(map[string][]uuid.UUID),
+		IsShuttingDown: r.isShuttingDown,
+		Defs:           r.defs,
+	}
+	for _, j := range r.jobsByID {
+		st.Jobs = append(st.Jobs, verifJob(j))
+	}
+	for p, jobs := range r.jobsByPipeline {
+		for _, j := range jobs {
+			st.JobsByPipeline[p] = append(st.JobsByPipeline[p], j.ID)
+		}
+	}
+	for p, jobs := range r.waitListByPipeline {
+		for _, j := range jobs {
+			st.WaitLists[p] = append(st.WaitLists[p], j.ID)
+		}
+	}
+	return st
+}
+
+// VerifJobOf copies the state of a job as handed to a callback of ReadJob / IterateJobs
+func VerifJobOf(j *PipelineJob) VerifJob {
+	return verifJob(j)
+}
+
+// VerifMx returns the address of the runner lock (used as an identity only)
+func VerifMx(r *PipelineRunner) interface{} {
+	return &r.mx
+}
+
+// VerifSortTasks exposes the topological sort that determines the reported task order
+func VerifSortTasks(tasks map[string]definition.TaskDef, order []string) []string {
+	jt := make(jobTasks, 0, len(order))
+	for _, name := range order {
+		jt = append(jt, jobTask{TaskDef: tasks[name], Name: name})
+	}
+	jt.sortTasksByDependencies()
+	res := make([]string, len(jt))
+	for i := range jt {
+		res[i] = jt[i].Name
+	}
+	return res
+}
